@@ -611,22 +611,21 @@ func init() {
 			}
 			// +inline-call L.closeUpvalues lbase
 			if callable.IsG {
-				luaframe := cf
+				// a host function in tail position is called like in OP_CALL; the RETURN that always
+				// follows a TAILCALL hands all its results on. (Replacing the calling frame would
+				// leave a yielding host function without a frame to come back to when resumed.)
 				L.pushCallFrame(callFrame{
 					Fn:         callable,
 					Pc:         0,
 					Base:       RA,
 					LocalBase:  RA + 1,
-					ReturnBase: cf.ReturnBase,
+					ReturnBase: RA,
 					NArgs:      nargs,
-					NRet:       cf.NRet,
+					NRet:       MultRet,
 					Parent:     cf,
 					TailCall:   0,
 				}, lv, meta)
-				if callGFunction(L, true) {
-					return 1
-				}
-				if L.currentFrame == nil || L.currentFrame.Fn.IsG || luaframe == baseframe {
+				if callGFunction(L, false) {
 					return 1
 				}
 			} else {
